@@ -644,6 +644,39 @@ func applyDirectedOnce(r *rng.R, root string, pid int, cls string, plus bool) (o
 	return out, fired
 }
 
+// staleDirectedCase (regression input for the defect fixed by /repo c94173a): NGINX Plus; the first
+// configuration cannot be written (permission error on the first create), then an endpoints-only change
+// whose Plus API calls would succeed, then an idle batch with a Service upsert. Before the fix the second
+// batch took the API path alone and reported success; now it writes the files and reloads.
+func staleDirectedCase(r *rng.R, root string, pid int) (out line) {
+	m, err := newMaster(root, pid)
+	if err != nil {
+		return line{note: "simulator: " + err.Error(), kind: "sim-error"}
+	}
+	defer m.close()
+	s := newSegment(m, true, map[string]bool{})
+	b1 := cleanBatch(r, pid, "c")
+	b1.fault = faultSpec{mode: "idx", k: 0, cls: "p"}
+	b3 := cleanBatch(r, pid, "n")
+	b3.svc = true
+	for _, b := range []batchSpec{b1, cleanBatch(r, pid, "e"), b3} {
+		if !s.batch(b) {
+			break
+		}
+	}
+	out.kind = "stale-directed" + kindSuffix(s.kinds)
+	out.note = s.note
+	out.judge = "H plus=1 obs=" + strings.Join(s.jb, ";")
+	if out.note == "" {
+		out.model = fmt.Sprintf("H plus=1 bs=%s", strings.Join(s.mb, ";"))
+		out.obs = strings.Join(s.ob, ";")
+	}
+	if len(m.badPaths) > 0 {
+		out.note = "unexpected paths: " + strings.Join(m.badPaths, ",")
+	}
+	return out
+}
+
 // restartCase: the NGF container restarts (a new handler, version counter back at 0) while the
 // NGINX master keeps running what the previous process configured. Judge only.
 func restartCase(r *rng.R, root string, pid int, canonical bool) (out line) {
